@@ -104,8 +104,10 @@ def print_assumptions(prop):
     src = COQ / "Props" / f"{prop}.v"
     if not src.exists():
         return False, "no Props file", []
+    pad = BUILD / "pa"
+    pad.mkdir(parents=True, exist_ok=True)
     rc, out = _run(
-        ["timeout", "600", "coqc", "-Q", str(COQ), "CubedV", "-o", str(BUILD / f"pa_{prop}.vo"), str(src)],
+        ["timeout", "600", "coqc", "-Q", str(COQ), "CubedV", "-o", str(pad / f"{prop}.vo"), str(src)],
         cwd=COQ, timeout=700,
     )
     axioms = []
